@@ -35,6 +35,7 @@ type Opt struct {
 	IniName        string
 	NoIni          bool
 	RawTag         string // if non-empty, used verbatim instead of the rendered tag (C19)
+	ProgChoicesFrom int   // >0: choices[ProgChoicesFrom:] are appended to the flags.Option after scanning, the first ones come from tags
 	Prog           bool   // required / choices / hidden / default-mask are set on the flags.Option after scanning, not by tags
 
 	Grp *Grp
@@ -227,8 +228,8 @@ func (o *Opt) Tag() string {
 	for _, v := range o.OptionalValues {
 		tagKV(&sb, "optional-value", v)
 	}
-	for _, c := range o.Choices {
-		if !o.Prog {
+	for i, c := range o.Choices {
+		if !o.Prog && !(o.ProgChoicesFrom > 0 && i >= o.ProgChoicesFrom) {
 			tagKV(&sb, "choice", c)
 		}
 	}
@@ -575,6 +576,21 @@ func (d *Decl) Build() *Built {
 // flags.Option of every option marked Prog (programmatic declaration instead of tags).
 func (d *Decl) applyProgAttrs(b *Built) {
 	for _, o := range d.Opts {
+		if o.ProgChoicesFrom > 0 && !o.Prog && o.Cmd.FC != nil {
+			// the tag-declared choices are extended through the exported Choices field
+			var fo *flags.Option
+			if o.Long != "" {
+				fo = o.Cmd.FC.Group.FindOptionByLongName(d.FullLong(o))
+			} else if o.Short != 0 {
+				fo = o.Cmd.FC.Group.FindOptionByShortName(o.Short)
+			}
+			if fo != nil && fo.Field().Name == o.Field {
+				fo.Choices = append(fo.Choices, o.Choices[o.ProgChoicesFrom:]...)
+			} else {
+				o.Choices = o.Choices[:o.ProgChoicesFrom]
+			}
+			continue
+		}
 		if !o.Prog || o.Cmd.FC == nil {
 			continue
 		}
